@@ -31,6 +31,8 @@ CLAIMED = {
          "finite tables against the standard; piecewise finite-domain evaluation of extracted loop-free definitions; guard domination"),
  'C20': ("Static decision of the gates that make OpenPGP objects tamper-evident: the signature validity predicate is evaluated piecewise over the whole hash enum and ten time scenarios against the statement (weak hashes, expiry, key age, far-future dating refused); every Signature::Verify* accepts only with CheckIntegrity's verdict; CheckIntegrity returns true only on success of the dispatched verifier; Message::Decrypt returns true only through AEAD success or CheckMDC on an integrity-protected packet; CheckMDC compares the recomputed hash; AEAD plaintext is released only after its tag check. That altered data fails the cryptographic checks and agreement with GnuPG are not decided.", "§3 C20",
          "piecewise finite-domain evaluation of the validity predicate; guard domination (must-facts) at accepting exits and output sites"),
+ 'C11': ("Writer/reader agreement decided from the source: for the ten delimiter formats (cards, card secrets, stacks, stack secrets, keys) the exporter's magic, delimiter, number of header fields, loop nesting and fields per iteration equal what the importer parses; for eleven PublishGroup/PublishState publishers the sequence of members written equals the sequence the stream constructor reads; all integer text uses one radix constant. Value-level losslessness (zero, negative, maximal length) is not decided.", "§3 C11",
+         "I/O-shape agreement between sibling exporter/importer implementations; constant agreement"),
 }
 NA = {
  'C01': "algebraic identity over runtime group elements for all masking chains; no clause visible in code shape beyond what C03/C05/C08/C12 claim",
